@@ -196,6 +196,22 @@ func (g *Gen) Sandwich() node.Type {
 	return node.BinOp{Op: g.op(), Left: g.Leaf(), Right: mid}
 }
 
+// DeepOperand builds (l op l) op W1(W2(x)): a doubly wrapped operand (for instance a call inside
+// an index) on the right of an operator whose left operand is itself an operation, so that a
+// partial result is live while the wrapped operand is evaluated.
+func (g *Gen) DeepOperand() node.Type {
+	var x node.Type = node.Int(vrt.Int("lit"))
+	if vrt.Bool("inner-op") {
+		x = node.BinOp{Op: g.op(), Left: x, Right: node.Int(vrt.Int("lit"))}
+	}
+	calls := [...]int{5, 12} // id(e), two(k, e)
+	mid := g.Wrap(calls[vrt.Choice("wrap-call", 2)], x)
+	outerW := [...]int{0, 6, 7, 8, 4} // a[e], [e], [k, e], -e, e[k:k]
+	mid = g.Wrap(outerW[vrt.Choice("wrap-outer", len(outerW))], mid)
+	left := node.BinOp{Op: g.op(), Left: g.Leaf(), Right: g.Leaf()}
+	return node.BinOp{Op: g.op(), Left: left, Right: mid}
+}
+
 // Chain builds a left- or right-nested chain of k operators over leaves.
 func (g *Gen) Chain(k int) node.Type {
 	e := g.Leaf()
